@@ -199,24 +199,24 @@ var All = []*Prop{
 	},
 	{
 		ID:    "C14",
-		Rules: []*core.Rule{rules.Classifier, rules.Recover, rules.GoError, rules.InterruptSync, rules.UncatchableClose, rules.LockScript},
+		Rules: []*core.Rule{rules.Classifier, rules.Recover, rules.GoError, rules.InterruptSync, rules.UncatchableClose, rules.LockScript, rules.TryError},
 		Explanation: "R-CLASSIFIER: in vm.exceptionFromValue (the single place where a panic payload becomes a script-catchable Exception) no case type accepts an implementer of uncatchableException (go/types assignability over every named type of the package), *Object is matched before Value, the *Object and Value cases store the matched value itself in Exception.val (SSA identity), and unknown payloads yield nil. " +
 			"R-RECOVER: for each of the recover() sites of the module and each caller of tryFunc, on the non-nil branch every exit is dominated by a re-panic of the same value, a call to handleThrow with it, or a successful classification; handleThrow re-panics what exceptionFromValue cannot convert. " +
 			"R-GOERROR: at every bridge for errors returned by host code (reflected native functions, json.Marshaler) NewGoError(err) is dominated by the false edges of err.(*Exception) and isUncatchableException(err), and the *Exception branch re-panics err itself. " +
 			"R-INTERRUPTSYNC / R-UNCATCHABLECLOSE (see C15): the interrupt flag is cleared only by leaveAbrupt/the public API, so it stays raised while the InterruptedError unwinds and no script catch/finally/iterator-return code can run. " +
-			"R-LOCKSCRIPT: capturing the stack of an exception (vm.captureStack, called when an exception is created or thrown) runs no script, so no user getter can run - and throw - in the middle of raising another error.",
+			"R-LOCKSCRIPT: capturing the stack of an exception (vm.captureStack, called when an exception is created or thrown) runs no script, so no user getter can run - and throw - in the middle of raising another error. R-TRYERROR: the *Exception returned by vm.try is converted to a Go `error` only inside a boundary function (deferred recover classifying with asUncatchableException); an API that reports errors but catches with a bare vm.try lets an interrupt escape as a Go panic with the interrupt still pending (Runtime.New/Set, ExportTo of an iterable, Object.MarshalJSON did).",
 		Technique:  "type-switch assignability over go/types, SSA value identity, must-pass-through on recover handlers with controlling-condition classification",
 		DesignRef:  "DESIGN.md section 4, C14",
 		NotCovered: "stack-trace contents and the position of the top frame, errors.Is/As chains through GoError (value-level), every sequence of frame kinds, StackOverflowError observability through natives that flatten the error into a new one",
 	},
 	{
 		ID:    "C15",
-		Rules: []*core.Rule{rules.InterruptSync, rules.Poll, rules.UncatchableClose, rules.TryPair, rules.Boundary, rules.ScopedState, rules.PairDefer, rules.ExitAgree, rules.Classifier, rules.LockScript},
+		Rules: []*core.Rule{rules.InterruptSync, rules.Poll, rules.UncatchableClose, rules.TryPair, rules.Boundary, rules.ScopedState, rules.PairDefer, rules.ExitAgree, rules.Classifier, rules.LockScript, rules.TryError},
 		Explanation: "R-INTERRUPTSYNC decides the race-freedom clause for the engine's own accesses: vm.interrupted is only touched through sync/atomic, vm.interruptVal only between interruptLock.Lock/Unlock, the value is published before the flag is raised, the flag is raised only in vm.Interrupt and cleared only in vm.ClearInterrupt which is reached only from the public API and leaveAbrupt (so it stays raised for the whole unwinding), and the transitive callees of Runtime.Interrupt/ClearInterrupt touch no other runtime state. " +
 			"R-POLL: every instruction-dispatch loop loads the flag atomically on each iteration, unconditionally, before the dispatch, and the loaded value gates the dispatch. " +
 			"R-LOCKSCRIPT ('stops the script promptly'): between Lock and Unlock of every sync.Mutex of the engine (interruptLock, the profiler's and weak map's) no call may run script according to the script-free summary, and vm.captureStack - which builds the InterruptedError's stack - is script-free: the VM is re-entrant on one goroutine, so script reached under the lock deadlocks the interrupted run on its own mutex (found on the pinned tree: a `name` getter on a native frame). " +
 			"R-UNCATCHABLECLOSE: code that closes iterators on an exceptional path is guarded by a classification that excludes uncatchable payloads ('run no further catch or finally'). " +
-			"R-TRYPAIR/R-BOUNDARY/R-SCOPEDSTATE/R-PAIRDEFER/R-EXITAGREE (see C03): the runtime is reusable afterwards, queued jobs are dropped, no activation marker or stale register stays set.",
+			"R-TRYPAIR/R-BOUNDARY/R-SCOPEDSTATE/R-PAIRDEFER/R-EXITAGREE (see C03): the runtime is reusable afterwards, queued jobs are dropped, no activation marker or stale register stays set. R-TRYERROR: the *Exception returned by vm.try is converted to a Go `error` only inside a boundary function (deferred recover classifying with asUncatchableException); an API that reports errors but catches with a bare vm.try lets an interrupt escape as a Go panic with the interrupt still pending (Runtime.New/Set, ExportTo of an iterable, Object.MarshalJSON did).",
 		Technique:  "atomic/lockset/ordering/who-may-write rules and effect containment over the call graph; dominance of the poll in dispatch loops; controlling-condition classification of cleanup calls",
 		DesignRef:  "DESIGN.md section 4, C15",
 		NotCovered: "wall-clock promptness inside a single long-running native builtin (one instruction), interrupt-while-idle semantics beyond the boundary rule, races inside dependencies",
